@@ -25,8 +25,12 @@ Definition rpath_of (c : lcase) (b : option string) (u : string) : string :=
 Definition rootfile (c : lcase) : file :=
   match files_of c (lc_root c) with Some f => f | None => mkFile [] [] None end.
 
+(* entry >= 10: a case outside the modelled fragment (path-item references): judged against the
+   specification only *)
+Definition nomodel (c : lcase) : bool := N.leb 10 (lc_entry c).
+Definition entry_of (c : lcase) : N := if nomodel c then (lc_entry c - 10)%N else lc_entry c.
 Definition run (c : lcase) : res lstate :=
-  load (lc_allow c) (files_of c) (rpath_of c) 400 (lc_entry c) (lc_root c) (rootfile c).
+  load (lc_allow c) (files_of c) (rpath_of c) 400 (entry_of c) (lc_root c) (rootfile c).
 
 Definition model_obs (c : lcase) (s : lstate) : list (list string * option N) :=
   flat_map (fun x : list string * kind * bool * node => match x with (p, _, _, n) => observe 200 s p 0 p n 2 end) (f_cells (rootfile c)).
@@ -101,6 +105,9 @@ Definition guard_class (c : lcase) : N :=
 Definition reads_same (c : lcase) (s : lstate) : bool := list_eqb String.eqb (reads s) (g_reads c).
 
 Definition judge_C02 (c : lcase) : N :=
+  if nomodel c then
+    (if N.eqb (g_out c) 0 && negb (obs_eq (g_obs c) (spec_obs_all c)) then J_VIOL else J_OK)
+  else
   match run c with
   | RFuel => J_DRIFT
   | RPanic => if N.eqb (g_out c) 2 || N.eqb (g_out c) 3 then J_OK else J_DRIFT
@@ -123,15 +130,17 @@ Definition judge_C02 (c : lcase) : N :=
 
 Definition judge_C11 (c : lcase) : N :=
   let root := lc_root c in
-  let start := if N.eqb (lc_entry c) 1 then [""] else [root] in
+  let start := if N.eqb (entry_of c) 1 then [""] else [root] in
   let allowed := if lc_allow c then reach_uris (files_of c) (rpath_of c) 30 start else start in
-  let bad := existsb (fun r => negb (str_in r allowed) || (N.eqb (lc_entry c) 1 && String.eqb r "")) (g_reads c) in
+  let bad := existsb (fun r => negb (str_in r allowed) || (N.eqb (entry_of c) 1 && String.eqb r "")) (g_reads c) in
+  if nomodel c then (if bad then J_VIOL else J_OK) else
   let mreads := match run c with ROk s => Some (reads s) | RErr rd => Some rd | _ => None end in
   let same := match mreads with Some rd => list_eqb String.eqb rd (g_reads c) | None => negb (N.eqb (g_out c) 0) && negb (N.eqb (g_out c) 1) end in
   if bad then (if same && lc_allow c then J_KNOWN 1 else J_VIOL)
   else if same then J_OK else J_DRIFT.
 
 Definition judge_C20 (c : lcase) : N :=
+  if nomodel c then (if N.eqb (g_out c) 2 || N.eqb (g_out c) 3 then J_VIOL else J_OK) else
   if N.eqb (g_out c) 2 || N.eqb (g_out c) 3 then
     (match run c with
      | RPanic => J_KNOWN 1   (* the one panic of the model: a backtrack callback asserting another routine's type *)
